@@ -95,7 +95,7 @@ def graph_events(g, n, rng, do_dm, nsets):
     return evs
 
 
-def state_events(rows):
+def state_events(rows, rng=None):
     import graphiq.backends.state_rep_conversion as rc
     from graphiq.backends.stabilizer.clifford_tableau import CliffordTableau
     n = len(rows)
@@ -104,7 +104,11 @@ def state_events(rows):
     so["kind"] = "S"
     evs = []
     for via, mk in (("state_to_graph(StabilizerTableau)", lambda: st.copy()),
-                    ("state_to_graph(CliffordTableau)", lambda: CliffordTableau(st.copy()))):
+                    # the Clifford tableau is assembled by the harness (destabilizers by brute force): graphiq's own
+                    # StabilizerTableau -> CliffordTableau conversion is C11's subject (and has known finding C11-K2)
+                    ("state_to_graph(CliffordTableau)",
+                     lambda: pj.rows_to_tableau(sg.random_destabilizers(rng, rows), rows) if rng is not None
+                     else CliffordTableau(st.copy()))):
         try:
             graph, tab, gates = rc.state_to_graph(mk())
             o = graph_out(graph, n)
@@ -128,10 +132,15 @@ def run(ctx):
     for n, nsets in ((1, 1), (2, 2), (3, 1 if ctx.quick else 6)):
         for grp in sg.enumerate_groups(ctx, n):
             for _ in range(nsets):
-                evs += state_events(sg.random_basis(rng, grp))
+                evs += state_events(sg.random_basis(rng, grp), rng)
     if not ctx.quick:
-        for grp in rng.sample(sg.enumerate_groups(ctx, 4), 1500):
-            evs += state_events(sg.random_basis(rng, grp))
+        for grp in rng.sample(sg.enumerate_groups(ctx, 4), 6000):
+            evs += state_events(sg.random_basis(rng, grp), rng)
+    # sampled 4..6-qubit states (independent sampler): sign repairs that only matter when a product of graph
+    # generators carries an intrinsic minus sign need >= 4 qubits and are rare (~0.4 % of states)
+    for n, k in ((4, 1500), (5, 500), (6, 150)) if ctx.quick else ((4, 4000), (5, 4000), (6, 1500)):
+        for _ in range(k):
+            evs += state_events(sg.random_state_rows(rng, n), rng)
     for i in range(0, len(evs), 100):
         tid += 1
         traces.append({"tid": tid, "meta": {"kind": "state_to_graph"}, "n": 1, "base": [], "need_orbit": False,
